@@ -5,8 +5,10 @@
 //! modes (argv: <mode> <seed> <budget> rest...):
 //!   rand   <seed> <runs> [shard nshards]          random interleavings, systematic over (size, starts)
 //!   exh    <seed> <len>  e cqe sq0 cq0 flags sqf cqf   all 5^len sequences over {G,F,R,C1,P1}, drain after each
+//!   real   <seed> <ops per ring>            real kernel: rings from setup_io_uring, see real.rs
 //!   replay <seed> 0      e cqe sq0 cq0 flags sqf cqf steps   one scripted run with a trace on stderr
 //! flags: bit0 SQPOLL, bit1 SQE128, bit2 CQE32.  steps: comma separated G,F,R,C<k>,P<k>.
+mod real;
 use rusl::platform::{
     Fd, IoUring, IoUringCompletionQueueEntry, IoUringParamFlags, IoUringSubmissionQueueEntry,
     VerifRingParts,
@@ -1135,6 +1137,7 @@ fn main() {
             let n = a.rest.get(1).and_then(|s| s.parse().ok()).unwrap_or(1);
             mode_rand(a.seed, a.budget, shard, n);
         }
+        "real" => real::mode_real(a.seed, a.budget),
         "exh" => match parse_cfg(&a.rest) {
             Some(cfg) if cfg.valid() => {
                 mode_exh(a.budget as u32, cfg);
